@@ -334,7 +334,7 @@ func main() {
 		"upper-case spellings may be accepted or rejected; if accepted they must decode to the same bytes")
 	r.MinShapes(300)
 
-	n := r.N(40000, 1200000)
+	n := r.N(40000, 800000)
 	r.Parallel(n, func(c *vk.Case) {
 		rng := c.Rng
 		L := 2 * (1 + rng.Intn(25))
